@@ -248,7 +248,14 @@ func IsSameV1alpha1WorkloadRefGVKName(a, b *appsv1alpha1.WorkloadRef) bool {
 	if a == nil || b == nil {
 		return false
 	}
-	return reflect.DeepEqual(a, b)
+	// a workload is identified by group, kind and name (that is how the workload finders resolve the reference):
+	// "apps/v1" and "apps/v1beta1" name the same Deployment
+	agv, aerr := schema.ParseGroupVersion(a.APIVersion)
+	bgv, berr := schema.ParseGroupVersion(b.APIVersion)
+	if aerr != nil || berr != nil {
+		return reflect.DeepEqual(a, b)
+	}
+	return agv.Group == bgv.Group && a.Kind == b.Kind && a.Name == b.Name
 }
 
 func GetContextFromv1alpha1Rollout(rollout *appsv1alpha1.Rollout) *validateContext {
